@@ -4,7 +4,12 @@ A(c) == [c |-> c, k |-> 0]
 PKC(k) == [c |-> "pk", k |-> k]
 \* quick grids
 KeysQ == {0, 1, -1}
-MsgsQ == {<<>>, <<A("a")>>, <<A("a"), A("b")>>, <<PKC(1), A("a")>>}
+MsgsQ == {<<>>, <<A("a")>>, <<A("a"), A("b")>>, <<PKC(1), A("a")>>, <<PKC(1)>>}
+\* honest-only instance (Depth 0): more keys, and messages that coincide with other things the library handles -
+\* the signer's own public-key bytes alone / twice / followed by text, another key's bytes, the library's own tags
+KeysH == {0, 1, 2, -1, 128}
+MsgsH == {<<>>, <<A("a")>>, <<A("a"), A("b")>>, <<PKC(1)>>, <<PKC(1), A("a")>>, <<PKC(1), PKC(1)>>, <<PKC(2)>>, <<A("a"), PKC(1)>>,
+          <<A("dst:NUL")>>, <<A("dst:AUG")>>, <<A("dst:POP")>>, <<A("dst:POPPROOF")>>, <<A("dst:POP"), A("a")>>}
 KeysP == {0, 1, 2, -1}
 MsgsP == {<<>>, <<A("a")>>}
 KeysT == {0, 1, 2, -1}
